@@ -12,6 +12,7 @@ A correspondence / corpus *case* is a whole history: a list of protocol lines (s
 import os
 
 from ..extract import findshape as _ex
+from ..extract import c13_idlookup as _ex_ids
 from ..lib import core
 from ..lib.core import Failure, Disagreement
 
@@ -60,7 +61,9 @@ TRUSTED_EXTRA = ["harness/extract/findshape.py renders the shape of util/find.py
 
 
 def extract(repo):
-    return _ex.extract(repo)
+    out = dict(_ex.extract(repo))
+    out.update(_ex_ids.extract(repo))
+    return out
 
 HKINDS = ["group", "data_array", "tag", "multi_tag"]
 HCONT = {"group": "groups", "data_array": "data_arrays", "tag": "tags", "multi_tag": "multi_tags"}
@@ -68,6 +71,7 @@ NAMES = ["a", "b", "c", "x"]
 WIDE_NAMES = NAMES + ["d", "e", "f", "g", "h", "i", "j", "k"]   # some histories: wide trees
 TYPES = ["t1", "t2"]
 POSNAME = "__pos__"
+P_OID = [0.0, 0.0, 0.1, 0.5, 0.9]     # per history: share of sections created with a caller-supplied id
 QUERY_OPS = ("find", "find_related", "parent", "parent_source", "parent_block", "referring")
 
 
@@ -147,6 +151,7 @@ class Impl:
         self.next = 0
         self.ncopies = 0
         self.names = NAMES
+        self.p_oid = 0.0     # share of create_section calls that supply the id (set per history by the generators)
 
     def close(self):
         try:
@@ -266,12 +271,15 @@ class Impl:
             b = f.create_block(line[1], line[2])
             return self._register("block", [line[1]], b)
         if op == "create_section":
+            # optional 5th element: the id the caller supplies (`oid=`), any text (stored as given when
+            # util.is_uuid accepts it, otherwise the library makes an id)
+            kw = {"oid": line[4]} if len(line) > 4 else {}
             if line[1] is None:
-                s = f.create_section(line[2], line[3])
+                s = f.create_section(line[2], line[3], **kw)
                 k = self._register("section", [line[2]], s)
             else:
                 ent, p = self.get(line[1], ("section",))
-                s = p.create_section(line[2], line[3])
+                s = p.create_section(line[2], line[3], **kw)
                 k = self._register("section", ent["path"] + [line[2]], s)
             self.cached[k] = s
             return k
@@ -420,6 +428,37 @@ def _rand_filter(rng):
     return ["none"]
 
 
+SPELLINGS = ("lower", "upper", "braces", "urn", "hex", "upper_braces", "urn_upper", "mixed", "upper_hex",
+             "braces_hex")
+
+
+def spell_uuid(rng, how=None):
+    """a fresh RFC 4122 id in one of the spellings uuid.UUID (hence util.is_uuid) reads; the value is random
+    (128 bits from the run's generator), so ids never repeat - also not in another spelling"""
+    import uuid
+    u = str(uuid.UUID(int=rng.getrandbits(128), version=4))
+    how = how or rng.choice(SPELLINGS)
+    if how == "lower":
+        return u
+    if how == "upper":
+        return u.upper()
+    if how == "braces":
+        return "{" + u + "}"
+    if how == "urn":
+        return "urn:uuid:" + u
+    if how == "hex":
+        return u.replace("-", "")
+    if how == "upper_braces":
+        return "{" + u.upper() + "}"
+    if how == "urn_upper":
+        return "urn:uuid:" + u.upper()
+    if how == "upper_hex":
+        return u.replace("-", "").upper()
+    if how == "braces_hex":
+        return "{" + u.replace("-", "") + "}"
+    return "".join(c.upper() if rng.random() < 0.5 else c for c in u)     # mixed case
+
+
 def gen_op(impl, rng, phase):
     """one protocol line, mostly valid in the current implementation state"""
     for _ in range(8):
@@ -462,7 +501,12 @@ def _gen_op(impl, rng, phase):
         par = None if (rng.random() < 0.3 or not by["section"]) else some("section")
         if par is not None and rng.random() < 0.5:
             par = max(by["section"] or [par], key=lambda k: (_depth_of(impl, k), rng.random()))  # go deep
-        return ["create_section", par, rng.choice(NAMES), rng.choice(TYPES)]
+        line = ["create_section", par, rng.choice(NAMES), rng.choice(TYPES)]
+        # ids supplied by the caller (a tree imported from another system): every spelling uuid.UUID reads;
+        # now and then a text that is no id at all (the library then makes one itself)
+        if rng.random() < impl.p_oid:
+            line.append(spell_uuid(rng) if rng.random() < 0.95 else rng.choice(["", "not-an-id", "1234", "g" * 32]))
+        return line
     if r < 0.20:
         if len(by["block"]) >= 3 and rng.random() < 0.8:
             return ["create_source", some("block"), rng.choice(NAMES), rng.choice(TYPES)]
@@ -594,6 +638,7 @@ def gen_history(ctx, path, nbuild, nmixed, on_state=None):
     impl = Impl(path)
     if rng.random() < 0.3:
         impl.names = WIDE_NAMES
+    impl.p_oid = rng.choice(P_OID)
     lines, outs = [], []
     try:
         for i in range(nbuild + nmixed):
@@ -719,6 +764,8 @@ def correspondence(ctx):
                 "file" if line[1] == "file" else "key", "none" if line[3] is None else "lim")
             if op in ("parent", "parent_source", "parent_block", "find_related"):
                 key = "%s/%s" % (op, line[2] if isinstance(line[2], str) else line[2][0])
+            if op == "create_section" and len(line) > 4:
+                key = "create_section/oid"
             if op == "find" and len(line) > 4:
                 key += "/via-%s" % (line[4] if isinstance(line[4], str) else line[4][0])
             if op == "referring" and len(line) > 3:
@@ -1120,6 +1167,7 @@ def oracle(ctx, broken, hints):
         impl = Impl(path)
         if rng.random() < 0.3:
             impl.names = WIDE_NAMES
+        impl.p_oid = rng.choice(P_OID)
         try:
             for j in range(nb + nm):
                 line = gen_op(impl, rng, "build" if j < nb else "mixed")
